@@ -100,6 +100,18 @@ def check(tier='quick', seed=0):
                         b = np.asarray(sel.data[key].data)
                         if not np.array_equal(a, b, equal_nan=True):
                             return fail(clause=f'selection: data set {key} differs from the sub-cube', shape=shape, nf=nfk, re=rek)
+                    # selection by names given in ANOTHER order than the survey's: every datum keeps its own values, looked up by name
+                    srcs, recs, frqs = list(survey.sources)[::-1], list(survey.receivers)[::-1], list(survey.frequencies)[::-1]
+                    sel2 = survey.select(sources=srcs, receivers=recs, frequencies=frqs, remove_empty=False)
+                    for key in survey.data.keys():
+                        for sn in srcs:
+                            for rn in recs:
+                                for fn_ in frqs:
+                                    a = survey.data[key].loc[sn, rn, fn_].data
+                                    b = sel2.data[key].loc[sn, rn, fn_].data
+                                    if not np.array_equal(a, b, equal_nan=True):
+                                        return fail(clause=f'selection with names in reversed order: {key} of datum ({sn}, {rn}, {fn_}) differs from the original',
+                                                    shape=shape, nf=nfk, re=rek, explicit=explicit)
                     cp = survey.copy()
                     survey.to_dict()
                     k = same_state(before, noise_state(survey)) or same_state(before, noise_state(cp))
